@@ -693,3 +693,162 @@ Proof.
   - apply word_index_of_nth. exact Hw.
   - eapply wordlist_nth_lt. exact Hw.
 Qed.
+
+(* ------------------------------------------------------------------ sizes *)
+
+Lemma div8_32 L : exists q r, (L = 4 * q + r /\ r < 4 /\ L * 8 / 32 = q)%nat.
+Proof.
+  exists (L / 4)%nat, (L mod 4)%nat. split; [apply Nat.div_mod; lia|].
+  split; [apply Nat.mod_upper_bound; lia|].
+  change 32%nat with (4 * 8)%nat. apply Nat.div_mul_cancel_r; lia.
+Qed.
+
+Lemma cs_len_4k k : (4 * k * 8 / 32 = k)%nat.
+Proof.
+  destruct (div8_32 (4 * k)) as (q & r & A & B & C). rewrite C. lia.
+Qed.
+
+Lemma legal_len_k e : legal_len e <-> exists k, (4 <= k <= 8)%nat /\ length e = (4 * k)%nat.
+Proof.
+  unfold legal_len. split.
+  - intros [E|[E|[E|[E|E]]]]; [exists 4%nat|exists 5%nat|exists 6%nat|exists 7%nat|exists 8%nat]; lia.
+  - intros (k & Hk & E). lia.
+Qed.
+
+Lemma legal_lenb_iff e : legal_lenb e = true <-> legal_len e.
+Proof.
+  unfold legal_lenb, legal_len. cbn [existsb]. rewrite !orb_true_iff, !Nat.eqb_eq. intuition discriminate.
+Qed.
+
+Lemma valid_bitsize_iff e : valid_bitsize (len e * 8) = true <-> legal_len e.
+Proof.
+  unfold valid_bitsize, legal_len, len. split.
+  - intros E. bool_hyps. assert (Z.of_nat (length e) mod 4 = 0) by (Z.div_mod_to_equations; lia).
+    Z.div_mod_to_equations. lia.
+  - intros E. apply negb_true_iff. apply orb_false_iff. split; [apply orb_false_iff; split|].
+    + apply negb_false_iff. apply Z.eqb_eq. destruct E as [E|[E|[E|[E|E]]]]; rewrite E; reflexivity.
+    + apply Z.ltb_ge. lia.
+    + apply Z.ltb_ge. lia.
+Qed.
+
+Section Main.
+  Variable H : bytes -> bytes.
+  Hypothesis H_wf : hash_wf H.
+
+  (* ---------------------------------------------------------------- encoding *)
+
+  Lemma encode_core e k : bytes_ok e -> (4 <= k <= 8)%nat -> length e = (4 * k)%nat ->
+    length (bits e ++ checksum_bits H e) = (11 * (3 * k))%nat /\
+    be_val (add_checksum H e) = bits_val (bits e ++ checksum_bits H e).
+  Proof.
+    intros He Hk Hl.
+    destruct (checksum_bits_spec H H_wf e k) as (_ & Cv & Cl); [rewrite Hl; apply cs_len_4k|lia|].
+    split.
+    - rewrite app_length, bits_length, Cl, Hl. lia.
+    - rewrite (add_checksum_spec H H_wf e k He); [| |lia].
+      2:{ unfold len. rewrite Hl. rewrite Nat2Z.inj_mul. change (Z.of_nat 4) with 4.
+          rewrite Z.mul_comm, Z.div_mul by lia. reflexivity. }
+      pose proof (be_val_bounds e He).
+      destruct (checksum_facts k (hash0 H e) ltac:(lia) (hash0_byte H H_wf e)) as (_ & _ & Bc).
+      destruct (be_bytes_spec (be_val e * 2 ^ Z.of_nat k + csv k (hash0 H e))) as (_ & V & _).
+      { assert (0 < 2 ^ Z.of_nat k) by (apply Z.pow_pos_nonneg; lia). nia. }
+      rewrite V. rewrite bits_val_app, bits_val_bits by exact He. rewrite Cv.
+      unfold len. rewrite Cl. reflexivity.
+  Qed.
+
+  Lemma new_mnemonic_is_spec e : bytes_ok e -> new_mnemonic H e = spec_encode H e.
+  Proof.
+    intros He. unfold new_mnemonic, spec_encode.
+    destruct (legal_lenb e) eqn:LL.
+    - apply legal_lenb_iff in LL. pose proof LL as LL'. apply valid_bitsize_iff in LL'. rewrite LL'. cbn [negb].
+      apply legal_len_k in LL. destruct LL as (k & Hk & Hl).
+      destruct (encode_core e k He Hk Hl) as (La & Va).
+      rewrite Va, La.
+      replace (Z.to_nat ((len e * 8 + len e * 8 / 32) / 11)) with (3 * k)%nat.
+      2:{ unfold len. rewrite Hl. rewrite Nat2Z.inj_mul. change (Z.of_nat 4) with 4.
+          symmetry. apply Nat2Z.inj. rewrite Z2Nat.id by (Z.div_mod_to_equations; lia).
+          rewrite Nat2Z.inj_mul. change (Z.of_nat 3) with 3. Z.div_mod_to_equations. lia. }
+      replace (11 * (3 * k) / 11)%nat with (3 * k)%nat
+        by (symmetry; rewrite Nat.mul_comm; apply Nat.div_mul; lia).
+      rewrite words_loop_chunks by exact La. rewrite app_nil_r. reflexivity.
+    - replace (valid_bitsize (len e * 8)) with false; [reflexivity|].
+      symmetry. destruct (valid_bitsize (len e * 8)) eqn:V; auto.
+      apply valid_bitsize_iff in V. apply legal_lenb_iff in V. congruence.
+  Qed.
+
+  (* ---------------------------------------------------------------- decoding: bits <-> numbers *)
+
+  Lemma pow2_33k k : 2 ^ Z.of_nat (11 * (3 * k)) = 2 ^ Z.of_nat k * 256 ^ (4 * Z.of_nat k).
+  Proof.
+    change 256 with (2 ^ 8). rewrite <- Z.pow_mul_r, <- Z.pow_add_r by lia. f_equal. lia.
+  Qed.
+
+  Lemma decode_core (idxs : list nat) k e :
+    (4 <= k <= 8)%nat -> length idxs = (3 * k)%nat -> Forall (fun i => Z.of_nat i < 2048) idxs ->
+    let N := sval (map Z.of_nat idxs) in
+    (bytes_ok e /\ flat_map (fun i => bits_of 11 (Z.of_nat i)) idxs = bits e ++ checksum_bits H e) <->
+    (e = pad_bytes (be_bytes (N / 2 ^ Z.of_nat k)) (4 * Z.of_nat k) /\
+     N mod 2 ^ Z.of_nat k = csv k (hash0 H e)).
+  Proof.
+    intros Hk Hl Hi N.
+    set (L := flat_map (fun i => bits_of 11 (Z.of_nat i)) idxs).
+    assert (LL : length L = (11 * (3 * k))%nat) by (unfold L; rewrite flat_bits11_length, Hl; reflexivity).
+    assert (VL : bits_val L = N) by (unfold L, N; rewrite sval_bits, map_mod_small by exact Hi; reflexivity).
+    pose proof (bits_val_bounds L) as BL. unfold len in BL. rewrite LL, VL, pow2_33k in BL.
+    assert (P2 : 0 < 2 ^ Z.of_nat k) by (apply Z.pow_pos_nonneg; lia).
+    assert (P256 : 0 < 256 ^ (4 * Z.of_nat k)) by (apply Z.pow_pos_nonneg; lia).
+    split.
+    - intros (He & E).
+      assert (Le : length e = (4 * k)%nat).
+      { apply (f_equal (@length bool)) in E. rewrite LL, app_length, bits_length in E.
+        unfold checksum_bits in E. rewrite firstn_length, bits_length in E.
+        destruct (H_wf e) as (h0 & rest & EH & _). rewrite EH in E. cbn [length] in E.
+        destruct (div8_32 (length e)) as (q & r & A & B & C). rewrite C in E. lia. }
+      destruct (checksum_bits_spec H H_wf e k) as (_ & Cv & Cl); [rewrite Le; apply cs_len_4k|lia|].
+      destruct (checksum_facts k (hash0 H e) ltac:(lia) (hash0_byte H H_wf e)) as (_ & _ & Bc).
+      assert (VN : N = be_val e * 2 ^ Z.of_nat k + csv k (hash0 H e)).
+      { rewrite <- VL, E, bits_val_app, bits_val_bits, Cv by exact He. unfold len. rewrite Cl. reflexivity. }
+      assert (D : N / 2 ^ Z.of_nat k = be_val e).
+      { rewrite VN, Z.add_comm, Z.div_add by lia. rewrite Z.div_small by lia. lia. }
+      split.
+      + rewrite D. replace (4 * Z.of_nat k) with (len e) by (unfold len; lia).
+        symmetry. apply pad_be_bytes_id. exact He.
+      + rewrite VN, Z.add_comm, Z.mod_add by lia. apply Z.mod_small. exact Bc.
+    - intros (Ee & Ec).
+      assert (BD : 0 <= N / 2 ^ Z.of_nat k < 256 ^ (4 * Z.of_nat k)).
+      { split; [apply Z.div_pos; lia|]. apply Z.div_lt_upper_bound; lia. }
+      destruct (pad_be_bytes _ _ BD ltac:(lia)) as (Ok_ & V & Ln). rewrite <- Ee in Ok_, V, Ln.
+      assert (Le : length e = (4 * k)%nat) by (unfold len in Ln; lia).
+      split; [exact Ok_|].
+      destruct (checksum_bits_spec H H_wf e k) as (_ & Cv & Cl); [rewrite Le; apply cs_len_4k|lia|].
+      apply bits_val_inj.
+      + rewrite LL, app_length, bits_length, Cl, Le. lia.
+      + rewrite VL, bits_val_app, bits_val_bits, Cv, V by exact Ok_. unfold len. rewrite Cl.
+        rewrite <- Ec. pose proof (Z.div_mod N (2 ^ Z.of_nat k)). lia.
+  Qed.
+
+  (* the two tables, for a legal word count n = 3k *)
+  Lemma tables k (x : Z) : (4 <= k <= 8)%nat ->
+    checksum_mask (Z.of_nat (3 * k)) = Some (Z.ones (Z.of_nat k)) /\
+    (if Z.of_nat (3 * k) =? 24 then Some x
+     else match checksum_shift (Z.of_nat (3 * k)) with Some sh => Some (x / sh) | None => None end)
+    = Some (csv k x).
+  Proof.
+    intros Hk. assert (C : (k = 4 \/ k = 5 \/ k = 6 \/ k = 7 \/ k = 8)%nat) by lia.
+    destruct C as [-> | [-> | [-> | [-> | ->]]]]; (split; [reflexivity|]); unfold csv; cbn; try reflexivity.
+    rewrite Z.div_1_r. reflexivity.
+  Qed.
+
+  Lemma legal_count_k n : legal_count (Z.of_nat n) = true <-> exists k, (4 <= k <= 8)%nat /\ n = (3 * k)%nat.
+  Proof.
+    unfold legal_count. split.
+    - intros E. bool_hyps. exists (n / 3)%nat.
+      assert (n = 3 * (n / 3) + n mod 3)%nat by (apply Nat.div_mod; lia).
+      assert (Z.of_nat (n mod 3) = Z.of_nat n mod 3) by (rewrite Nat2Z.inj_mod; reflexivity).
+      lia.
+    - intros (k & Hk & ->). apply negb_true_iff. apply orb_false_iff. split; [apply orb_false_iff; split|].
+      + apply negb_false_iff. apply Z.eqb_eq. rewrite Nat2Z.inj_mul, Z.mul_comm. apply Z.mod_mul. lia.
+      + apply Z.ltb_ge. lia.
+      + apply Z.ltb_ge. lia.
+  Qed.
+End Main.
